@@ -83,7 +83,13 @@ void sim_fd_note_open(int fd, const char *what) {
 
 void sim_fd_mark_selfpipe(int rfd, int wfd) {
     if (tracked(rfd)) fdt[rfd].kind = K_SELFPIPE_R;
-    if (tracked(wfd)) fdt[wfd].kind = K_SELFPIPE_W;
+    if (tracked(wfd)) {
+        fdt[wfd].kind = K_SELFPIPE_W;
+        /* the pipe_size knob is for the workload's pipes. The loop's own pipe keeps the kernel's default size:
+         * a one-page pipe reports "not writable" as soon as it holds one message, and the loop thread posting
+         * a second message to itself would then park for ever, which no real run does */
+        if (sim_cfg.pipe_size > 0) fcntl(wfd, F_SETPIPE_SZ, 65536);
+    }
 }
 
 void sim_fd_note_close(int fd) {
